@@ -67,6 +67,21 @@ REG.contract(L + "c04.pair_interaction", params={"a": "formulae.terms.variable.V
                       "forall(0, nrows(xa), lambda r: forall(0, len(a.levels), lambda i: forall(0, len(b.levels), lambda j: "
                       "result[r, i * len(b.levels) + j] == (1 if rowval(xa, r) == a.levels[i] and rowval(xb, r) == b.levels[j] else 0))))"])
 
+# ---- C17 -------------------------------------------------------------------------------------------------------------
+from . import matrices_c                                                                      # noqa: E402
+from .matrices_c import terms_of, widths, psum, WF as M_WF                                     # noqa: E402,F401
+for _cls in ("CommonEffectsMatrix", "GroupEffectsMatrix"):
+    REG.contract(L + "c17.block_view" + ("" if _cls.startswith("Common") else "#group"), of=L + "c17.block_view",
+                 params={"m": "formulae.matrices." + _cls, "data": "any", "env": "any", "name": "str", "k": "int"}, returns="arr2",
+                 tags=["C17"],
+                 requires=[c.replace("self", "m") for c in M_WF] + ["0 <= k", "k < len(terms_of(m))", "name == terms_of(m)[k].name"],
+                 modifies=["m.data", "m.env", "m.design_matrix", "m.slices", "m.evaluated"],
+                 ensures=["result.shape[0] == terms_of(m)[0].data.shape[0]",
+                          # (the prefix sums are named so that their definitions are unfolded at the positions needed)
+                          "result.shape[1] == psum(widths(m), k + 1) - psum(widths(m), k) and result.shape[1] == widths(m)[k]",
+                          "implies(psum(widths(m), k + 1) - psum(widths(m), k) == widths(m)[k], "
+                          "forall(0, result.shape[0], lambda r: forall(0, widths(m)[k], lambda c: result[r, c] == terms_of(m)[k].data[r, c])))"])
+
 # ---- C01 -------------------------------------------------------------------------------------------------------------
 REG.inline.add("formulae.scanner.Scanner.__init__")
 REG.inline.add("formulae.parser.Parser.__init__")
@@ -75,7 +90,7 @@ REG.contract(L + "c01.scan_then_parse", params={"code": "list[char]"}, returns="
              ensures=["result is not None", "strat(result)"])
 
 FUNCTIONS = [L + "c06.center_rows", L + "c06.scale_rows", L + "c06.categoric_rows", L + "c01.scan_then_parse",
-             L + "c04.main_effect", L + "c04.main_effect#call", L + "c04.pair_interaction"]
+             L + "c04.main_effect", L + "c04.main_effect#call", L + "c04.pair_interaction", L + "c17.block_view", L + "c17.block_view#group"]
 ASSUMPTIONS = ["property lemmas are verified on harness functions under /verif/vf/proplemmas that only call the real functions; each "
                "callee is represented by its contract (proved separately on the real source)",
                "x.iloc[rows] of a Series: row i of the selection is row rows[i] of x (assumed; validated by ext-valid)"]
